@@ -121,6 +121,7 @@ enum Outcome : uint8_t { O_NONE = 0, O_REJECT, O_ACCEPT_IDENT, O_ACCEPT_USABLE, 
 enum Phase : uint32_t { P_IDLE = 0, P_BASELINE, P_READ, P_TAILCHECK, P_LEAKCHECK };
 
 static const uint32_t MAXF = 12000;
+static const unsigned CPU_LIMIT_S = 120;   // CPU seconds per child; hit twice (slice, then the fault alone) = hang
 static const uint64_t LARGE_BEFORE_REJECT = 64ull << 20;   // a rejected image may not have requested a block larger than its size + 64 MiB
 static const uint32_t MAXREC = 48;
 static const uint32_t BASELINE_IDX = 0xffffffffu;
@@ -135,6 +136,7 @@ struct Shm {
   volatile uint64_t n_large_alloc;   // requests > 64 MiB (counter only)
   volatile uint32_t mem_blowup;
   volatile uint32_t tail_zero_ident; // accepted-identical whose missing tail was all zero
+  volatile uint32_t n_huge_cheap;    // accepted objects that own a block > 64 MiB: cheap read-out only
   uint8_t outcome[MAXF];
   Rec recs[MAXREC];
 };
@@ -195,12 +197,27 @@ template<typename F> void use_phase(F&& f) {
 struct ReadoutThrew : std::runtime_error { explicit ReadoutThrew(const std::string& w): std::runtime_error(w) {} };
 // The standard shape of a reader: deser() -> sketch (an exception = the image is rejected);
 // readout(sketch) -> canonical string; usefn(sketch) = updates / merge / re-serialize.
-template<typename D, typename R, typename U> std::string accept(D&& deser, R&& readout, U&& usefn, bool use) {
+// An ACCEPTED object for which the reader obtained a single block above HUGE_OBJECT (a corrupted size field that the format
+// allows) gets only the cheap read-out (configuration getters, a query, one update, destroy): the monitor's own per-fault work
+// must not scale with a size chosen by the fault, otherwise the CPU-limit verdict would depend on the speed of the machine.
+// The allocation rules themselves are unchanged (an accepted image is held to the 1 GiB rule only).
+static const uint64_t HUGE_OBJECT = 64ull << 20;
+template<typename D, typename R, typename U, typename C> std::string accept(D&& deser, R&& readout, U&& usefn, bool use, C&& cheap) {
   auto s = deser();
+  static const bool no_cheap = getenv("C11_NO_CHEAP") != nullptr;   // measurement knob only
+  if (fault_max_alloc() > HUGE_OBJECT && !no_cheap) {
+    if (shm()) shm()->n_huge_cheap = shm()->n_huge_cheap + 1;
+    try { cheap(s); } catch (const std::exception& e) { throw ReadoutThrew(std::string("cheap read-out of the accepted huge object threw: ") + e.what()); }
+    return "accepted-huge-object(cheap read-out only, largest block " + std::to_string(fault_max_alloc()) + ")";
+  }
   std::string o;
   try { o = readout(s); } catch (const std::exception& e) { throw ReadoutThrew(std::string("read-out of the accepted sketch threw: ") + e.what()); }
   if (use) use_phase([&] { usefn(s); });
   return o;
+}
+struct NoCheap { template<typename S> void operator()(S&) const {} };
+template<typename D, typename R, typename U> std::string accept(D&& deser, R&& readout, U&& usefn, bool use) {
+  return accept(std::forward<D>(deser), std::forward<R>(readout), std::forward<U>(usefn), use, NoCheap());
 }
 struct Attempt { int status; bool same; };   // status: 0 rejected, 1 accepted, 2 accepted but the use phase threw, 3 non-std exception, 4 accepted but the read-out threw
 
@@ -208,6 +225,7 @@ struct Attempt { int status; bool same; };   // status: 0 rejected, 1 accepted, 
 __attribute__((noinline)) inline Attempt attempt(const Target& t, uint8_t* p, size_t n, bool use, const std::string* baseline,
                                                  char* diff, size_t diffcap, char* what, size_t whatcap) {
   Attempt a{0, false};
+  fault_max_alloc() = 0;
   try {
     std::string ro = t.read(p, n, use);
     a.status = 1;
@@ -245,8 +263,8 @@ inline void child_run(const Target& t, const Bytes& img, const std::vector<Fault
   signal(SIGXCPU, on_cpu_limit);
   signal(SIGALRM, on_cpu_limit);
   struct rlimit rc0; rc0.rlim_cur = rc0.rlim_max = 0; setrlimit(RLIMIT_CORE, &rc0);
-  struct rlimit rl; rl.rlim_cur = single ? 10 : 12; rl.rlim_max = 20; setrlimit(RLIMIT_CPU, &rl);
-  alarm(300);
+  struct rlimit rl; rl.rlim_cur = CPU_LIMIT_S; rl.rlim_max = CPU_LIMIT_S + 30; (void)single; setrlimit(RLIMIT_CPU, &rl);
+  alarm(20 * CPU_LIMIT_S);   // wall-clock safety net only
   __sanitizer_install_malloc_and_free_hooks(malloc_hook, free_hook);
 
   // --- baseline read-out of the intact image (same path)
@@ -560,7 +578,7 @@ inline void run_target_case(const Target& t, uint64_t variant, Rng& r) {
   uint32_t next = 0;
   uint64_t nrej = 0, nident = 0, nusable = 0, nthrew = 0, nviol = 0, ndeaths = 0, nskipped = 0;
   uint32_t nhang[2] = {0, 0};
-  const uint32_t HANG_CAP = 4;
+  const uint32_t HANG_CAP = 2;
   uint64_t sigacc = mix64(h, img.size());
   for (char c : t.path) sigacc = mix64(sigacc, static_cast<uint8_t>(c));
   auto process_recs = [&](const ChildEnd& ce) {
@@ -581,7 +599,8 @@ inline void run_target_case(const Target& t, uint64_t variant, Rng& r) {
     }
     count("tail_zero_accepted_identical", s->tail_zero_ident);
     count("large_allocations_over_64MiB", s->n_large_alloc);
-    s->nrec = 0; s->tail_zero_ident = 0; s->n_large_alloc = 0;
+    count("accepted_huge_object_cheap_readout", s->n_huge_cheap);
+    s->nrec = 0; s->tail_zero_ident = 0; s->n_large_alloc = 0; s->n_huge_cheap = 0;
   };
   auto account = [&](uint32_t from, uint32_t upto) {
     for (uint32_t i = from; i < upto; ++i) {
@@ -598,7 +617,7 @@ inline void run_target_case(const Target& t, uint64_t variant, Rng& r) {
   };
   while (next < N) {
     const uint32_t to = std::min(N, next + SLICE);
-    s->nrec = 0; s->max_alloc = 0; s->n_large_alloc = 0; s->mem_blowup = 0; s->tail_zero_ident = 0;
+    s->nrec = 0; s->max_alloc = 0; s->n_large_alloc = 0; s->mem_blowup = 0; s->tail_zero_ident = 0; s->n_huge_cheap = 0;
     ChildEnd ce = fork_slice(t, img, faults, next, to, false);
     count("forks");
     process_recs(ce);
@@ -623,12 +642,12 @@ inline void run_target_case(const Target& t, uint64_t variant, Rng& r) {
     classify_report(ce.err, cls, frame, &trace);
     bool hang = false;
     if (ce.kind == 0 && ce.code == 98) {
-      // CPU limit: confirm by running this fault alone with a fresh 10 s budget
+      // CPU limit: confirm by running this fault alone with a fresh budget
       s->outcome[bad] = O_NONE;
       ChildEnd ce2 = fork_slice(t, img, faults, bad, bad + 1, true);
       count("forks");
       process_recs(ce2);
-      if (ce2.kind == 0 && ce2.code == 98) { hang = true; cls = "hang"; frame = "cpu-limit-10s"; }
+      if (ce2.kind == 0 && ce2.code == 98) { hang = true; cls = "hang"; frame = "cpu-limit-twice"; }
       else if (ce2.kind == 0 && ce2.code == 0 && s->slice_done) { count("cpu_limit_not_reproduced"); account(bad, bad + 1); next = bad + 1; continue; }
       else { ce = ce2; phase = s->phase; trace.clear(); classify_report(ce.err, cls, frame, &trace); }
     }
